@@ -139,10 +139,19 @@ Definition run_serde (ty caps pts arg : bytes) : bytes :=
            | _ => err "type" end
   | _, _ => err "parse" end.
 
+(* C20 lj <Variant> <n>: LockTime from the JSON {"<Variant>": n}, printed and parsed back *)
+Definition run_locktime_json (variant n : bytes) : bytes :=
+  match N_of_dec n with
+  | None => err "value"
+  | Some k => match de_locktime (VMap [(VStr variant, VU64 k)]) with
+              | Err _ => "err"%lb
+              | Ok l => "ok "%lb ++ show_locktime l ++ sp ++ show_hex (print_locktime l) ++ sp ++ show_res show_locktime (parse_locktime (print_locktime l)) end end.
+
 Definition run (args : list bytes) : bytes :=
   match args with
   | [k; ty; a] =>
       if bytes_eqb k "tp"%lb then match hexarg a with Some s => run_parse ty s | None => err "hex" end
+      else if bytes_eqb k "lj"%lb then run_locktime_json ty a
       else if bytes_eqb k "tr"%lb then
         match run_print ty a with
         | Some s => show_hex s ++ sp ++ run_parse ty s
